@@ -167,17 +167,17 @@ func rulesC05(p *Prog, r *Report) {
 		if len(kwCalls) == 0 && len(idCalls) == 0 {
 			for _, b := range pt.Blocks {
 				for _, in := range b.Instrs {
-					ix, ok := in.(*ssa.Index)
+					tbl, tidx, elem, ok := tableElem(in)
 					if !ok {
 						continue
 					}
-					fns := funcTableOf(ix.X)
-					if len(fns) == 0 || isRangeIndexOf(ix.Index, ix.X) != nil {
+					fns := funcTableOf(tbl)
+					if len(fns) == 0 || isRangeIndexOf(tidx, tbl) != nil {
 						continue
 					}
 					called := false
-					for _, ref := range *ix.Referrers() {
-						if c, ok := ref.(*ssa.Call); ok && c.Call.Value == ssa.Value(ix) {
+					for _, ref := range *elem.Referrers() {
+						if c, ok := ref.(*ssa.Call); ok && c.Call.Value == elem {
 							called = true
 						}
 					}
